@@ -323,3 +323,63 @@ func runCamera(c *hlib.Ctx) {
 		}
 	}
 }
+
+// ---------------------------------------------------------------------------
+// DirectionalCamera: the returned (auto-framing) camera must contain the object's bounding box,
+// judged with the returned camera's own Uncaster(1, 1) and the 5% margin the search uses.
+
+func bboxContained(cam *render3d.Camera, obj render3d.Object) (bool, string) {
+	un := cam.Uncaster(1, 1)
+	min, max := obj.Min(), obj.Max()
+	const margin = 0.05
+	for _, x := range []float64{min.X, max.X} {
+		for _, y := range []float64{min.Y, max.Y} {
+			for _, z := range []float64{min.Z, max.Z} {
+				sx, sy := un(model3d.XYZ(x, y, z))
+				if sx < margin || sy < margin || sx >= 1-margin || sy >= 1-margin || math.IsNaN(sx) || math.IsNaN(sy) {
+					return false, fmt.Sprintf("corner(%v,%v,%v)->(%.4g,%.4g)", x, y, z, sx, sy)
+				}
+			}
+		}
+	}
+	return true, ""
+}
+
+func runDirectional(c *hlib.Ctx) {
+	for it := 0; it < c.N/2+6; it++ {
+		p := randPrim(c)
+		var obj render3d.Object = p.object(0)
+		if c.Rng.Intn(3) == 0 {
+			obj = render3d.Translate(obj, model3d.XYZ(c.Dyadic(4, 2), c.Dyadic(4, 2), c.Dyadic(4, 2)))
+		}
+		if c.Rng.Intn(4) == 0 {
+			obj = render3d.JoinedObject{obj, randPrim(c).object(1)}
+		}
+		fov := []float64{0, math.Pi / 3.6, 0.3, 0.6, 1.2, 2.0, math.Pi / 2}[it%7]
+		dir := randUnit(c)
+		// hypothesis of directional_camera_contains: the farthest candidate contains the box
+		min, max := obj.Min(), obj.Max()
+		center := min.Mid(max)
+		far := render3d.NewCameraAt(center.Add(dir.Scale(min.Dist(max)*1e4)), center, fov)
+		if ok, _ := bboxContained(far, obj); !ok {
+			c.Stat("dircam.skipped-far-candidate-not-containing", 1)
+			continue
+		}
+		res := withTimeout(20*time.Second, func() string {
+			cam := render3d.DirectionalCamera(obj, dir, fov)
+			want := fov
+			if want == 0 {
+				want = render3d.DefaultFieldOfView
+			}
+			if cam.FieldOfView != want {
+				return "wrong-fov:" + hlib.Hex(cam.FieldOfView)
+			}
+			if ok, why := bboxContained(cam, obj); !ok {
+				return "outside:" + why
+			}
+			return "contained"
+		})
+		c.Emit(fmt.Sprintf("c20 dircam %s %s %s %s", hlib.Hex(fov), hex3(dir), hex3(min), hex3(max)), res)
+		c.Stat("dircam.cases", 1)
+	}
+}
